@@ -47,6 +47,7 @@ type irFunc struct {
 	ret    string
 	body   []irInstr
 	multi  bool // more than one basic block
+	lastLabel int // index in body of the first instruction after the last label
 	text   string
 }
 
@@ -56,6 +57,8 @@ var (
 	reDefine = regexp.MustCompile(`^define\s+(\S+)\s+@"?([^"(]+)"?\(([^)]*)\)`)
 	reAssign = regexp.MustCompile(`^\s+(%[\w.]+) = (.*)$`)
 )
+
+var reIRLabel = regexp.MustCompile(`^[\w.$-]+:\s*(;.*)?$`)
 
 func parseIR(text string) []*irFunc {
 	var fns []*irFunc
@@ -84,6 +87,18 @@ func parseIR(text string) []*irFunc {
 		}
 		if strings.HasPrefix(line, "}") {
 			cur.text += "}\n"
+			if strings.HasSuffix(cur.name, "__again") {
+				// the operation emitted twice in blocks that do not dominate each other:
+				// the LAST block is judged on its own (it uses only the parameters)
+				cur.body = cur.body[cur.lastLabel:]
+				cur.multi = false
+				for _, in := range cur.body {
+					switch in.op {
+					case "br", "phi", "switch", "unreachable":
+						cur.multi = true
+					}
+				}
+			}
 			cur = nil
 			continue
 		}
@@ -92,10 +107,11 @@ func parseIR(text string) []*irFunc {
 		if t == "" || strings.HasPrefix(t, ";") {
 			continue
 		}
-		if strings.HasSuffix(t, ":") {
+		if strings.HasSuffix(t, ":") || reIRLabel.MatchString(t) {
 			if len(cur.body) > 0 {
 				cur.multi = true
 			}
+			cur.lastLabel = len(cur.body)
 			continue
 		}
 		ins := irInstr{raw: t}
@@ -890,6 +906,9 @@ func buildC02Case(fn *irFunc, useUF bool) *c02Case {
 		ty, ok2 := goIntTypeOf(parts[3])
 		c.fnName = "ssa.Builder.BinOp"
 		c.oblig = fmt.Sprintf("ssa.Builder.BinOp/ensures-den[op=%s,x=%s,y=%s]", parts[1], parts[2], parts[3])
+		if len(parts) == 5 && parts[4] == "again" {
+			c.oblig = fmt.Sprintf("ssa.Builder.BinOp/ensures-den[op=%s,x=%s,y=%s,second emission in the same function]", parts[1], parts[2], parts[3])
+		}
 		if cw := goComplexW(parts[2]); cw > 0 && parts[2] == parts[3] {
 			// complex arithmetic component-wise in IEEE arithmetic; multiplication by the
 			// textbook formula (what gc computes); division is the run-time function
